@@ -280,3 +280,56 @@ def run_for_property(prop: str, repo: str, seed: int = 0, budget: int = 48, jobs
     for fa in out['false_alarms'][:10]:
         print(f'    benign FALSE ALARM {fa}')
     return out
+
+
+# ---------------------------------------------------------------------------------------
+# corpus of behaviour-preserving refactorings written by independent authors (benign_refactors/*.diff): each patch that still applies to the tree under
+# analysis is applied to a scratch copy; the property's check must report nothing new and must not refuse the tree
+
+def _corpus_one(args) -> tp.Dict[str, tp.Any]:
+    import subprocess
+    prop, repo, patch, base = args
+    tmp = tempfile.mkdtemp(prefix='sfa-corpus-')
+    try:
+        dst = os.path.join(tmp, 'static_frame')
+        os.makedirs(os.path.join(dst, 'core'))
+        shutil.copy(os.path.join(repo, 'static_frame', '__init__.py'), dst)
+        src_core = os.path.join(repo, 'static_frame', 'core')
+        for fn in os.listdir(src_core):
+            if fn.endswith('.py'):
+                shutil.copy(os.path.join(src_core, fn), os.path.join(dst, 'core'))
+        r = subprocess.run(['patch', '-p1', '-s', '-f', '-i', patch], cwd=tmp, stdout=subprocess.PIPE, stderr=subprocess.STDOUT, text=True)
+        ident = os.path.basename(patch)
+        if r.returncode:
+            return {'id': ident, 'status': 'inapplicable'}
+        try:
+            found, _ = _violations(prop, tmp)
+        except AnalysisError as e:
+            return {'id': ident, 'status': 'refused', 'why': str(e)[:200]}
+        new = found - base
+        if new:
+            return {'id': ident, 'status': 'false-alarm', 'why': str(sorted(new)[:2])[:300]}
+        return {'id': ident, 'status': 'silent'}
+    finally:
+        shutil.rmtree(tmp, ignore_errors=True)
+
+
+def run_corpus(prop: str, repo: str, jobs: int = 16) -> tp.Dict[str, tp.Any]:
+    here = os.path.dirname(os.path.dirname(os.path.abspath(__file__)))
+    patches = sorted(os.path.join(here, 'benign_refactors', f) for f in os.listdir(os.path.join(here, 'benign_refactors')) if f.endswith('.diff')) \
+        if os.path.isdir(os.path.join(here, 'benign_refactors')) else []
+    base, _funcs = _violations(prop, repo)
+    results = []
+    if patches:
+        with concurrent.futures.ProcessPoolExecutor(max_workers=min(jobs, len(patches))) as ex:
+            results = list(ex.map(_corpus_one, [(prop, repo, p, frozenset(base)) for p in patches]))
+    out = {
+        'patches': len(patches),
+        'applied': sum(1 for r in results if r['status'] != 'inapplicable'),
+        'silent': sum(1 for r in results if r['status'] == 'silent'),
+        'alarms': [f'{r["id"]}: {r.get("why", "")}' for r in results if r['status'] in ('false-alarm', 'refused')],
+    }
+    print(f'  refactor corpus: {out["patches"]} behaviour-preserving patches by independent authors — {out["applied"]} apply, {out["silent"]} silent, {len(out["alarms"])} ALARMS')
+    for a in out['alarms'][:10]:
+        print(f'    corpus ALARM {a}')
+    return out
